@@ -128,7 +128,8 @@ def run(R):
         else:
             hr.append("HR %s %s %s %s %s" % (f[1], f[2], f[3], kind, f[4]))
     trace = os.path.join(cc.rundir(R), "trace")
-    open(trace, "w").write("\n".join(dlines) + "\n")
+    modelled = ("NameFromBytes", "ReadName", "ComponentFromBytes", "ParseNat")
+    open(trace, "w").write("\n".join(dlines + [l for l in hr if l.split(" ")[1] in modelled]) + "\n")
     rc, rout, lines = cc.run_runner(R, rexe, trace, timeout=3000)
     if "DONE" not in rout:
         R.proof_problems.append("runner did not finish: " + rout[-300:])
@@ -138,6 +139,9 @@ def run(R):
             _, k, v = l.split(" "); stats[k] = int(v)
         elif l.startswith("DIVERGE "):
             parts = l.split(" ", 3); src = lines[int(parts[1]) - 1]; f = src.split(" ")
+            if f[0] == "HR":
+                R.divergence("%s through reader %s: %s" % (parts[2], f[2], parts[3][:300]), dict(trace_line=src[:6000], detail=parts[3][:3000]))
+                continue
             R.divergence("%s (model %s/%s, %s): %s" % (parts[2], f[1], f[2], f[9].split(";")[0], parts[3][:300]), dict(trace_line=src[:6000], detail=parts[3][:3000]))
         elif l.startswith("ORACLE "):
             parts = l.split(" ", 3); src = lines[int(parts[1]) - 1]; f = src.split(" ")
